@@ -1,0 +1,34 @@
+//go:build verif
+
+package text
+
+// Exported wrappers used by the verification harness in /verif (build tag
+// verif only). They add no behaviour.
+
+func VerifTermKey(term string) []byte   { return termKey(term) }
+func VerifDocumentKey(id uint64) []byte { return documentKey(id) }
+func VerifTermIdFromKey(key []byte) (string, bool) {
+	var si *setCacheItem
+	return si.IdFromKey(key)
+}
+func VerifDocIdFromKey(key []byte) (uint64, bool) {
+	var dc docCacheItem
+	return dc.IdFromKey(key)
+}
+
+// VerifAnalyse runs the analyser of a text index on a string and returns the terms.
+func VerifAnalyse(name string, s string) ([]string, error) {
+	a, err := newBeleeveAnalyser(name)
+	if err != nil {
+		return nil, err
+	}
+	toks, err := a.Analyse(s)
+	if err != nil {
+		return nil, err
+	}
+	out := make([]string, len(toks))
+	for i, t := range toks {
+		out[i] = t.Term
+	}
+	return out, nil
+}
